@@ -81,7 +81,7 @@ def equiv_check(prop, tier, seed, jobs, pairs, mcs=None, mc_generated=None, job_
     for v, p in zip(verdicts, meta):
         compared_rows += v.get("compared", 0)
         if not v["ok"]:
-            why = "rows" if v["nBad"] else ("stats" if not v["stats"] else ("calls" if not v.get("calls", True) else "shape"))
+            why = "rows" if v["nBad"] else ("stats" if not v["stats"] else ("calls" if not v.get("calls", True) else ("crops" if not v.get("crops", True) else "shape")))
             key = f"{p['rule']}.{why}"
             V.add(key, p.get("scenario"), {"label": p.get("label"), "verdict": v, "jobs": [jobs[x[0] if isinstance(x, (tuple, list)) else x] for x in (p["a"], p["b"])]})
     rc = V.report()
